@@ -18,6 +18,11 @@ fn shim_i32_from_be_bytes(b: [u8; 4]) -> (r: i32)
     ensures r as int == be_i32(b@)
 { i32::from_be_bytes(b) }
 
+#[verifier::external_body]
+fn shim_u32_from_be_bytes(b: [u8; 4]) -> (r: u32)
+    ensures r as int == be32(b@)
+{ u32::from_be_bytes(b) }
+
 pub assume_specification [ i32::unsigned_abs ] (x: i32) -> (r: u32)
     ensures r as int == (if x < 0 { -(x as int) } else { x as int });
 
